@@ -145,31 +145,65 @@ def check_swap(ctx: Ctx, rid_pair: str, rid_region: str, pm: ParserModel) -> Non
                     ok = False
                     why.append("the raw Value of the argument is not created before the placeholder is appended")
             ctx.ob(rid_region, f"parser:CxxParser.{fname}|placeholder token stays inside the bounded stream", ok, msg="; ".join(why), node=x, mod=mod)
-        # ---- which arguments get a trial at all: every one that starts like a type.  Any further condition on the way to
-        # the swap means some type-ids are never tried and are reported as raw values.
+        # ---- which arguments get a trial at all: every one that starts like a type-id (a name, a fundamental type, a
+        # cv-qualifier).  The guard on the way to the swap is evaluated for each such first token: it must hold, and it
+        # must not depend on anything but the first token and the list being non-empty - any further condition means
+        # some type-ids are never tried and are reported as raw values.
+        from .booleval import UNKNOWN as _UNK, ev as _bev
+        folder = ctx.repo.folder("parser", "CxxParser")
+        type_start = set(folder.get("_pqname_start_tokens")) | {"const", "volatile"}
         for t in tries:
+            if not any(isinstance(s_, ast.Assign) and any(is_self_attr(tg, "lex") for tg in s_.targets) for b_ in t.finalbody for s_ in ast.walk(b_)):
+                continue
             tn = next((m for m in cfg.nodes if m.stmt is not None and any(x is m.stmt for x in t.body)), None)
             if tn is None:
                 continue
-            conj = []
+            conds = []
             for d, lab in cfg.control_deps(tn):
-                if d.loop is not None or d.cond is None or lab != "T":
-                    if d.cond is not None and d.loop is None and lab == "F":
-                        conj.append("not (" + norm(d.cond) + ")")
+                if d.loop is not None or d.cond is None or lab not in ("T", "F"):
                     continue
-                parts = d.cond.values if isinstance(d.cond, ast.BoolOp) and isinstance(d.cond.op, ast.And) else [d.cond]
-                for p_ in parts:
-                    conj.append(_expand_single_defs(cfg, rd, d, p_))
-            allowed = lambda c_: (c_ in ("raw_toks", "bool(raw_toks)", "len(raw_toks) > 0", "len(raw_toks) >= 1", "raw_toks != []") or
-                                  (c_.startswith("raw_toks[0].type in ") and "_pqname_start_tokens" in c_))
-            flat = []
-            for c_ in conj:
-                flat += [x.strip() for x in c_.split(" and ")] if not c_.startswith("not (") else [c_]
-            extra = [c_ for c_ in flat if not allowed(c_)]
-            starts = any("_pqname_start_tokens" in c_ for c_ in flat)
-            ctx.ob(rid_region, f"parser:CxxParser.{fname}|every argument that starts like a type gets a trial parse", starts and not extra,
-                   msg=(f"the trial parse also depends on {extra}: a template argument that starts like a type but fails that test is never parsed as a type and is reported as a raw value (e.g. 'std::array<std::array<int, 3>, 4>')"
-                        if extra else "the trial parse is not tied to the argument starting like a type name"), node=t, mod=mod)
+                conds.append((ast.parse(_expand_single_defs(cfg, rd, d, d.cond), mode="eval").body, lab == "T"))
+            consts = {}
+
+            def sym(e: ast.AST):
+                tx = norm(e)
+                if tx == "raw_toks[0].type":
+                    return "@type"
+                if tx in ("raw_toks", "bool(raw_toks)"):
+                    return "@nonempty"
+                if tx in ("len(raw_toks)",):
+                    return "@len"
+                if isinstance(e, ast.Attribute) and isinstance(e.value, ast.Name) and e.value.id == "self":
+                    if tx not in consts:
+                        try:
+                            v = folder.lookup(e.attr)
+                            consts[tx] = tuple(sorted(v)) if isinstance(v, (set, frozenset, list, tuple)) else v
+                        except Exception:
+                            return None
+                    return "@c:" + tx
+                return None
+
+            untried = []
+            undecided = []
+            for T_ in sorted(type_start):
+                for cond, want in conds:
+                    env = {"@type": T_, "@nonempty": True, "@len": 1}
+                    sym(cond)  # (fills nothing; constants are registered while evaluating)
+                    for x in ast.walk(cond):
+                        sym(x)
+                    env.update({"@c:" + k: v for k, v in consts.items()})
+                    v = _bev(cond, env, sym)
+                    if v is _UNK:
+                        if norm(cond) not in undecided:
+                            undecided.append(norm(cond))
+                    elif bool(v) != want:
+                        untried.append(T_)
+                        break
+            ok22 = bool(conds) and not untried and not undecided
+            ctx.ob(rid_region, f"parser:CxxParser.{fname}|every argument that starts like a type gets a trial parse", ok22,
+                   msg=(f"a template argument whose first token is one of {untried[:6]} is never tried as a type and is reported as a raw value (e.g. 'Foo<const int>')" if untried else
+                        f"the trial parse also depends on {undecided}: a template argument that starts like a type but fails that test is never parsed as a type and is reported as a raw value (e.g. 'std::array<std::array<int, 3>, 4>')"
+                        if undecided else "the trial parse is not tied to the argument starting like a type name"), node=t, mod=mod, detail={"first tokens": len(type_start)})
         # ---- whole-argument condition: the success path passes `_next_token_must_be(PhonyEnding.type)` and has_tokens()
         for t in tries:
             if not any(isinstance(s, ast.Assign) and any(is_self_attr(tg, "lex") for tg in s.targets) for b in t.finalbody for s in ast.walk(b)):
